@@ -17,8 +17,8 @@ RULE = ('one run = one seeded history (stores, conflicts, deletes, undos, '
         'with the reference model; non-trivial = committed >= 2 '
         'transactions; distinct = hash of (kind, outcome sequence, final '
         'model shape)')
-BUDGET = {'quick': {'runs': 4000, 'wall': 240},
-          'thorough': {'runs': 120000, 'wall': 1500}}
+BUDGET = {'quick': {'runs': 6000, 'wall': 240},
+          'thorough': {'runs': 350000, 'wall': 1800}}
 ASSUMPTIONS = [
     'reading an un-created revision may raise POSKeyError or return None',
     'the data_txn hint of an iterator record only has to name a revision '
